@@ -62,10 +62,14 @@ def o1_header(ctx, msg_len, str_type):
     ctx.reached()
 
 
-def o2_fragments(ctx, n, lossy):
+def o2_fragments(ctx, n, lossy, toggle=False):
     from circuitpython_nrf24l01.network.structs import RF24NetworkHeader
     clock = fresh_env(ctx)
     radio, net = new_net(clock, 0o1)
+    if toggle:  # fragmentation switched off and on again before sending: it is on, so nothing may be cut
+        net.fragmentation = False
+        net.fragmentation = True
+        ctx.check(net.fragmentation == True, "fragmentation reads back as enabled")  # noqa: E712
     total = max(1, (n + 23) // 24)
     fail_at = ctx.int("fail_at", 0, total - 1) if lossy is True else None
     uids = []
@@ -159,6 +163,8 @@ def jobs(tier):
         out.append(Job("O2-fragments-on-air", o2_fragments, dict(n=n, lossy=False), cost=1 + n // 24))
     for n in ((25, 49, 144) if tier == "quick" else (25, 48, 49, 72, 73, 96, 97, 120, 121, 144)):
         out.append(Job("O2-aborted-send-restores-type", o2_fragments, dict(n=n, lossy=True), cost=20 + n // 4))
+    for n in ((25, 144) if tier == "quick" else (24, 25, 49, 144)):
+        out.append(Job("O2-fragments-on-air-after-toggling-fragmentation", o2_fragments, dict(n=n, lossy=False, toggle=True), cost=2 + n // 24))
     for n in ((49, 72) if tier == "quick" else (25, 48, 49, 72, 97, 144)):
         out.append(Job("O2-fragments-through-an-outage", o2_fragments, dict(n=n, lossy="outage"), cost=30 + n // 4))
     out.append(Job("O3-id-counter", o3_ids, {}))
